@@ -63,6 +63,15 @@ def _text(rng, n, alphabet=TOKEN):
     return bytes(rng.choice(alphabet) for _ in range(n))
 
 
+def hostile_bytes(rng, maxlen=12):
+    """byte strings around the escaping rules of profile literals: backslashes next to either quote, trailing backslashes"""
+    r = rng.random()
+    if r < 0.5:
+        return rng.choice([b"\\'", b"'\\", b"\\\\'", b"a\\'b", b'\\"', b"\\", b"\\\\", b"'", b'"', b"x\\", b"\\n", b"\\x41", b"%s\\'%s"])
+    alpha = [b"\\", b"'", b'"', b"a", b"\n", b";", b"\xff", b"\x00", b"x", b"{", b"#"]
+    return b"".join(rng.choice(alpha) for _ in range(rng.randrange(0, maxlen)))
+
+
 def gen_block_steps(rng, sink, hostile=False):
     """encoder steps of one build block whose result must be printable when the sink is textual"""
     steps = []
@@ -70,6 +79,8 @@ def gen_block_steps(rng, sink, hostile=False):
         op = rng.choice(["MASK", "BASE64", "BASE64URL", "NETBIOS", "NETBIOSU", "PREPEND", "APPEND"])
         if op in ("PREPEND", "APPEND"):
             arg = rng.randbytes(rng.randrange(0, 12)) if (hostile or sink == "PRINT") and rng.random() < 0.5 else _text(rng, rng.randrange(1, 12))
+            if hostile and sink == "PRINT" and rng.random() < 0.4:
+                arg = hostile_bytes(rng)
             steps.append((op, arg))
         else:
             steps.append((op, True))
@@ -206,6 +217,8 @@ def build_http_config(rng, keyname="rsa1024_a", hostile=False, extras=True, allo
         m["execute"] = items
         opt.append((51, 3, enc_execute(items).ljust(128, b"\0")))
         a, b = rng.randbytes(rng.choice([0, 2, 9])), rng.randbytes(rng.choice([0, 2, 9]))
+        if hostile:
+            a, b = hostile_bytes(rng), hostile_bytes(rng)
         m["procinj_x86"] = (a, b)
         opt.append((46, 3, (u32(len(a)) + a + u32(len(b)) + b).ljust(256, b"\0")))
         a, b = rng.randbytes(rng.choice([0, 3])), rng.randbytes(rng.choice([0, 3]))
@@ -247,7 +260,7 @@ def build_http_config(rng, keyname="rsa1024_a", hostile=False, extras=True, allo
             m["sleep_mask"] = rng.choice([0, 1])
             opt.append((41, 1, struct.pack(">H", m["sleep_mask"])))
         if rng.random() < 0.3:
-            hdr = rng.randbytes(rng.choice([0, 3, 8]))
+            hdr = rng.randbytes(rng.choice([0, 3, 8])) if not hostile else hostile_bytes(rng)
             m["tcp_frame_header"] = hdr
             opt.append((58, 3, (struct.pack(">H", len(hdr) + 4) + hdr + b"\0\0\0\0").ljust(128, b"\0")))
             hdr = rng.randbytes(rng.choice([0, 5]))
